@@ -415,27 +415,8 @@ def construct_dataclass(eng, st, c, args, kwargs):
     ref = VRef(st.alloc(o))
     pi = find_method(eng, c, "__post_init__", st)
     if pi is not None:
-        if pi.qualname != "APIModelBase.__post_init__":
-            raise Unsupported(f"__post_init__ of {c.__name__}")
-        # APIModelBase.__post_init__ specialised on the concrete field list: apply each field's converter (exact unrolling)
-        paths = [(st, None)]
-        for f in dataclasses.fields(c):
-            conv = f.metadata.get("converter")
-            if conv is None:
-                continue
-            nxt = []
-            for s, r in paths:
-                if r is not None:
-                    nxt.append((s, r))
-                    continue
-                for s2, v in eng.call(eng.lift(conv, s), [s.heap[ref.oid].f[f.name]], {}, s):
-                    if isinstance(v, Raised):
-                        nxt.append((s2, v))
-                    else:
-                        s2.heap[ref.oid].f[f.name] = v
-                        nxt.append((s2, None))
-            paths = nxt
-        return [(s, ref if r is None else r) for s, r in paths]
+        # the generated __init__ ends with `self.__post_init__()`: the class's real method body is executed
+        return [(s, ref if not isinstance(r, Raised) else r) for s, r in eng.call(pi, [ref], {}, st)]
     return ok(st, ref)
 
 
